@@ -73,6 +73,13 @@ func cfgGen(rng *vRand) *pb.ApiConfig {
 			cp.MaxSize = uint32(rng.Intn(4)) // 0 (default 4), 1, 2, 3
 		}
 		cp.MaxConcurrentStreamsLowWatermark = []uint32{0, 1, 2, 3, 5}[rng.Intn(5)]
+		if rng.Intn(12) == 0 {
+			// values at the edge of the field type: the effective configuration
+			// still equals the supplied one (only absent/zero values get defaults)
+			cp.MinSize = uint32(rng.Intn(3))
+			cp.MaxSize = []uint32{1000, 1<<31 - 1, 1 << 31, 1<<32 - 1}[rng.Intn(4)]
+			cp.MaxConcurrentStreamsLowWatermark = []uint32{0, 101, 1 << 31, 1<<32 - 1}[rng.Intn(4)]
+		}
 		cp.FallbackToReady = rng.Bool()
 		if rng.Intn(3) == 0 {
 			cp.UnresponsiveCalls = uint32(rng.Intn(3))
@@ -386,6 +393,13 @@ func cfgPool(c *cfgCase, rng *vRand, cfg *pb.ApiConfig) {
 	c.out.hit("C17.effective-config-wb")
 	if s.b.cfg == nil || !proto.Equal(s.b.cfg.ApiConfig, eff) {
 		c.report("C17.effective-config", "", "effective config is %v, want %v", s.b.cfg, eff)
+		return
+	}
+	if wantMax > 64 || wantWm > 200 {
+		// edge values: the pool cannot be loaded that far; a growth beyond the default
+		// maxSize of 4 is still observable when the watermark is small
+		c.out.hit("C17.edge-values")
+		c.out.nontrivial(vHashStrings([]string{"edge", orig.String()}))
 		return
 	}
 
